@@ -1367,7 +1367,9 @@ theorem ev_convertDone (s : St) (st : Started) (h : Good b s) :
     · refine ⟨⟨rfl, rfl, rfl, rfl, rfl, ?_⟩, rfl, rfl⟩
       apply TagsLe_map
       intro y
-      split <;> exact ⟨rfl, rfl, rfl⟩
+      split
+      · split <;> exact ⟨rfl, rfl, rfl⟩
+      · split <;> exact ⟨rfl, rfl, rfl⟩
 
 theorem ev_markAdd (s : St) (st : Started) (name : String) (ids : List Nat) (h : Good b s) :
     Good b (step s (.markAdd name ids) st).1 := by
